@@ -74,6 +74,11 @@ func descN(v ssa.Value, depth int, seen map[ssa.Value]bool) string {
 	case *ssa.UnOp:
 		switch v.Op {
 		case token.MUL:
+			if a, ok := v.X.(*ssa.Alloc); ok {
+				if sv := SingleStore(a, v); sv != nil {
+					return d(sv)
+				}
+			}
 			inner := d(v.X)
 			// load through an address: x.&f -> x.f ; &local:n -> local:n
 			if i := strings.LastIndex(inner, ".&"); i >= 0 && !strings.ContainsAny(inner[i+2:], ".([ ") {
@@ -405,4 +410,118 @@ func AllocatedType(v ssa.Value) string {
 // StaticType returns the type of the value below interface wrappers.
 func StaticType(v ssa.Value) string {
 	return TypeStr(StripIface(v).Type())
+}
+
+// SingleStore returns the value held by a local variable cell at the given
+// load when that is statically unique: the cell has exactly one store in its
+// function, no closure writes to it, and the store dominates the load. This
+// sees through parameters and locals that go/ssa spills to memory because a
+// closure captures them.
+func SingleStore(a *ssa.Alloc, load ssa.Instruction) ssa.Value {
+	refs := a.Referrers()
+	if refs == nil {
+		return nil
+	}
+	var st *ssa.Store
+	for _, r := range *refs {
+		switch r := r.(type) {
+		case *ssa.Store:
+			if r.Addr == a {
+				if st != nil {
+					return nil
+				}
+				st = r
+			}
+		case *ssa.MakeClosure:
+			for i, b := range r.Bindings {
+				if b == a && closureWrites(r.Fn.(*ssa.Function), i, 0) {
+					return nil
+				}
+			}
+		}
+	}
+	if st == nil {
+		return nil
+	}
+	if load == nil {
+		return st.Val
+	}
+	sb, lb := st.Block(), load.Block()
+	if sb == lb {
+		if IndexOf(st) < IndexOf(load) {
+			return st.Val
+		}
+		return nil
+	}
+	if sb.Dominates(lb) {
+		return st.Val
+	}
+	return nil
+}
+
+func closureWrites(fn *ssa.Function, fvIdx int, depth int) bool {
+	if depth > 4 || fvIdx >= len(fn.FreeVars) {
+		return true
+	}
+	fv := fn.FreeVars[fvIdx]
+	refs := fv.Referrers()
+	if refs == nil {
+		return false
+	}
+	for _, r := range *refs {
+		switch r := r.(type) {
+		case *ssa.Store:
+			if r.Addr == fv {
+				return true
+			}
+		case *ssa.MakeClosure:
+			for i, b := range r.Bindings {
+				if b == fv && closureWrites(r.Fn.(*ssa.Function), i, depth+1) {
+					return true
+				}
+			}
+		}
+	}
+	return false
+}
+
+// ResolveFreeVar maps a captured variable of a closure to the cell (Alloc or
+// outer FreeVar) it was bound to at the closure's unique creation site, or nil.
+func ResolveFreeVar(fv *ssa.FreeVar) ssa.Value {
+	fn := fv.Parent()
+	idx := -1
+	for i, x := range fn.FreeVars {
+		if x == fv {
+			idx = i
+		}
+	}
+	par := fn.Parent()
+	if idx < 0 || par == nil {
+		return nil
+	}
+	var found ssa.Value
+	for _, b := range par.Blocks {
+		for _, in := range b.Instrs {
+			if mc, ok := in.(*ssa.MakeClosure); ok && mc.Fn == fn {
+				if found != nil {
+					return nil
+				}
+				found = mc.Bindings[idx]
+			}
+		}
+	}
+	return found
+}
+
+// CapturedValue resolves a captured variable to the single value stored in
+// its cell in the enclosing function (see SingleStore), or nil.
+func CapturedValue(fv *ssa.FreeVar) ssa.Value {
+	cell := ResolveFreeVar(fv)
+	switch c := cell.(type) {
+	case *ssa.Alloc:
+		return SingleStore(c, nil)
+	case *ssa.FreeVar:
+		return CapturedValue(c)
+	}
+	return nil
 }
